@@ -317,13 +317,12 @@ impl<'a> Ctx<'a> {
                 }
             }
             (F::Bin(Conn::Imp, a, b), true) | (F::Bin(Conn::Rimp, b, a), true) => {
-                if w != World::H {
-                    let mut ga = Vec::new();
-                    let mut gb = Vec::new();
-                    self.nc(a, false, w, &mut ga, helpers);
-                    self.nc(b, true, w, &mut gb, helpers);
-                    gens.push(Gen::Alt(vec![ga, gb]));
-                }
+                // here-and-there: (H,T) |= F -> G implies T |= F -> G, a necessary condition
+                let mut ga = Vec::new();
+                let mut gb = Vec::new();
+                self.nc(a, false, wt, &mut ga, helpers);
+                self.nc(b, true, wt, &mut gb, helpers);
+                gens.push(Gen::Alt(vec![ga, gb]));
             }
             (F::Bin(Conn::Iff, a, b), false) => {
                 if w == World::H {
@@ -343,15 +342,14 @@ impl<'a> Ctx<'a> {
                 }
             }
             (F::Bin(Conn::Iff, a, b), true) => {
-                if w != World::H {
-                    let mut g1 = Vec::new();
-                    let mut g2 = Vec::new();
-                    self.nc(a, true, w, &mut g1, helpers);
-                    self.nc(b, true, w, &mut g1, helpers);
-                    self.nc(a, false, w, &mut g2, helpers);
-                    self.nc(b, false, w, &mut g2, helpers);
-                    gens.push(Gen::Alt(vec![g1, g2]));
-                }
+                // here-and-there: (H,T) |= F <-> G implies T |= F <-> G, a necessary condition
+                let mut g1 = Vec::new();
+                let mut g2 = Vec::new();
+                self.nc(a, true, wt, &mut g1, helpers);
+                self.nc(b, true, wt, &mut g1, helpers);
+                self.nc(a, false, wt, &mut g2, helpers);
+                self.nc(b, false, wt, &mut g2, helpers);
+                gens.push(Gen::Alt(vec![g1, g2]));
             }
             (F::Q(forall, vars, body), pos) => {
                 // exists in positive position / forall in negative position: helpers
